@@ -18,6 +18,7 @@ pub fn all_subs() -> Vec<vcore::Sub> {
     v.extend(checks::c12::subs());
     v.extend(checks::c13::subs());
     v.extend(checks::c19::subs());
+    v.extend(checks::wide::subs());
     v
 }
 
